@@ -20,6 +20,7 @@ CLAUSES = {
     "C10": BASE + ["mlimit", "progress"],
     "C11": BASE + ["route", "progress"],
     "C13": BASE + ["dispo", "result", "progress"],
+    "C14": BASE + ["once"],
 }
 OWN = {"C02": ["dispo"], "C03": ["stop", "dispo"], "C04": ["retry"], "C06": ["recur"], "C09": ["limit", "progress"],
        "C10": ["mlimit", "progress"], "C11": ["route", "progress"], "C13": ["result"]}
@@ -180,7 +181,7 @@ def fam_c11(tier, rng):
             q = rng.randrange(nq)
             jobs.append({"id": f"m{k}", "actor": f"mine{q}" if mine else f"foreign{rng.randrange(2)}", "queue": f"q{q}",
                          "script": ["ok"], "dur_ms": [rng.choice([0, 50])], "at_ms": rng.choice([0, 0, 200]),
-                         "must_run": mine})
+                         "must_run": mine, "foreign": not mine})
         scs.append(default_scenario(jobs=jobs, actors=actors, worker={"tasks_limit": rng.choice([1, 3]), "messages_limit": 0, "grace_s": 0.5},
                                     horizon_ms=6000, deadline_ms=5000))
     return scs
@@ -239,6 +240,74 @@ def fam_c13(tier, rng):
     return scs
 
 
+def fam_c14(tier, rng):
+    """two (or three) workers serving the same queue; one of them is stopped while its actors run"""
+    scs = []
+    for n in range({"quick": 10, "thorough": 80}[tier]):
+        jobs = [{"id": f"m{k}", "actor": "job", "script": [rng.choice(["ok", "ok", "raise"])], "retries": rng.choice([0, 1]),
+                 "dur_ms": [rng.choice([50, 200, 400])], "at_ms": rng.choice([0, 0, 100])} for k in range(rng.randint(1, 4))]
+        scs.append(default_scenario(jobs=jobs, actors={"job": {"policy": ["const", 0]}}, nworkers=rng.choice([2, 2, 3]),
+                                    worker={"tasks_limit": rng.choice([1, 2]), "messages_limit": 0, "grace_s": rng.choice([0.0, 0.3, 1.0])},
+                                    horizon_ms=2500, stop={"at_ms": rng.choice([20, 120, 260]), "worker": 0}))
+    # the forced cancellation lands exactly when the actor finishes (grace deadline == end of the actor)
+    for dur, grace in ((200, 0.1), (50, 0.0), (300, 0.3), (100, 0.05)):
+        for off in (-1, 0, 1):
+            scs.append(default_scenario(jobs=[{"id": "m0", "actor": "job", "script": ["ok"], "dur_ms": [dur]}],
+                                        actors={"job": {"policy": ["const", 0]}}, nworkers=2,
+                                        worker={"tasks_limit": 1, "messages_limit": 0, "grace_s": grace}, horizon_ms=1500,
+                                        stop={"at_ms": dur - int(grace * 1000) + off, "worker": 0}))
+    return scs
+
+
+def extra_c14(ck: Check, tier: str, rng) -> None:
+    """C14 end to end: several workers on one queue, stop requests injected into one of them at the loop steps
+    where something happens; a successful job is executed exactly once, never two bodies of one message at a time"""
+    chk = BASE + ["once"]
+    scs = fam_c14(tier, rng)
+    with pool() as ex:
+        base = list(ex.map(_record, [(sc, chk, []) for sc in scs], chunksize=2))
+        inj = []
+        for sc, (_, info) in zip(scs, base):
+            steps = info["run_steps"] or 0
+            hot = sorted({s + d for s in info["event_steps"] for d in (-1, 0, 1) if 1 <= s + d <= steps})
+            cap = {"quick": 40, "thorough": 400}[tier]
+            if len(hot) > cap:
+                hot = sorted(rng.sample(hot, cap))
+            for k in hot:
+                sc2 = copy.deepcopy(sc)
+                sc2["stop"] = {"at_step": k, "worker": 0}
+                inj.append(sc2)
+        injected = list(ex.map(_record, [(sc, chk, []) for sc in inj], chunksize=8))
+        allsc = scs + inj
+        traces = [t for (t, _) in base + injected]
+        v = tlc.validate_traces("Trace_Worker", "Trace_Worker.cfg", traces)
+        ck.add_tlc(v.result, f"Trace_Worker: {len(traces)} runs of 2-3 workers sharing a queue (clauses {chk})")
+        ck.traces += len(traces)
+        ck.notes["multi_worker_runs"] = len(traces)
+        for sc, (t, info) in zip(allsc, base + injected):
+            ck.case("mw" + str(hash(str([(e.get("e"), e.get("op"), e.get("i"), e.get("v"), e.get("st"), e.get("out")) for e in t]))),
+                    nontrivial=bool(info["exec_count"]))
+        ck.sample({"scenario": scs[0], "note": "several workers on one queue"})
+        if v.rejected:
+            idx = sorted(v.rejected)
+            solo = []
+            for i in idx:
+                s1 = copy.deepcopy(allsc[i])
+                s1["nworkers"] = 1
+                s1["stop"] = None if s1.get("stop", {}).get("worker") else s1.get("stop")
+                solo.append(s1)
+            solo_rec = list(ex.map(_record, [(sc, chk, []) for sc in solo], chunksize=2))
+            vs = tlc.validate_traces("Trace_Worker", "Trace_Worker.cfg", [t for (t, _) in solo_rec])
+            ck.add_tlc(vs.result, "the rejected scenarios again with a single worker")
+            for n, i in enumerate(idx):
+                pos = v.rejected[i]
+                if n in vs.rejected:
+                    ck.drift.append({"note": "rejected with a single worker too: not caused by concurrent consumers", "scenario": allsc[i]})
+                elif len(ck.violations) < 20:
+                    ck.violation(f"with several workers on the queue the run is rejected at event {pos}: {traces[i][pos - 1] if pos <= len(traces[i]) else 'end'}",
+                                 {"check": "worker-c14", "scenario": allsc[i], "rejected_at": pos, "context": explain(traces[i], pos, 14)})
+
+
 FAMS = {"C13": fam_c13, "C02": fam_c02, "C03": fam_c03, "C04": fam_c04, "C06": fam_c06, "C09": fam_c09, "C10": fam_c10, "C11": fam_c11}
 
 
@@ -258,6 +327,14 @@ def run(pid: str, tier: str, seed: int, *, replay: dict | None = None) -> int:
     if replay is None:
         model_check(ck, pid, tier)
         lap("abstract worker model checked")
+    if replay is not None and replay.get("check") == "worker-c14":
+        pid_clauses = BASE + ["once"]
+        t, info = _record((replay["scenario"], pid_clauses, []))
+        v = tlc.validate_traces("Trace_Worker", "Trace_Worker.cfg", [t])
+        ck.traces += 1
+        if v.rejected:
+            ck.violation(f"replayed run rejected at event {v.rejected[0]}", {"check": "worker-c14", "scenario": replay["scenario"]})
+        return ck.finish()
     scs = [replay["scenario"]] if replay is not None else FAMS[pid](tier, rng)
     with pool() as ex:
         base = list(ex.map(_record, [(sc, chk, []) for sc in scs], chunksize=2))
